@@ -241,6 +241,15 @@ func c20Random(c *core.Ctx, k *core.Case) {
 	r := prng.New(uint64(k.I[2]))
 	rng := max - min + 1
 	g := uePolicyContainer.NewGenerator(min, max)
+	if len(k.I) > 4 && k.I[4]&1 == 1 {
+		// the allocator is used through a value copy, the way the library's own by-value
+		// fields hold it (sub.UpscGenerator = *NewGenerator(min, max)); the original is dropped
+		cp := *g
+		g = &cp
+		c.Cover("allocator_held", "value-copy")
+	} else {
+		c.Cover("allocator_held", "pointer")
+	}
 	log := make([]c20Event, 0, n)
 	var liveGuess []int64 // workload-side memory of ids it got, to aim frees at live ids
 	mode := r.Intn(3)     // 0 balanced, 1 fill-heavy, 2 churn near full
@@ -356,6 +365,9 @@ func init() {
 			if cnt["offset_wraps_observed"] == 0 {
 				f = append(f, "no scan-offset wrap observed")
 			}
+			if cov["allocator_held"]["value-copy"] == 0 || cov["range_position"]["reaching above 65535"] == 0 || cov["range_position"]["above 2^31"] == 0 {
+				f = append(f, "no allocator held by value / no range above 65535 / above 2^31")
+			}
 			if cov["inrange_start"]["within-range-of-maxint64"] == 0 || cov["inrange_start"][">=2^31"] == 0 {
 				f = append(f, "no Allocate_inRange start value near the top of int64 / above 2^31")
 			}
@@ -410,12 +422,17 @@ func init() {
 			u := u
 			us = append(us, core.Unit{Name: fmt.Sprintf("random-%02d", u), Weight: 2000, Run: func(c *core.Ctx) {
 				for i := 0; i < nr/16; i++ {
-					min := int64([]int{0, 1, 5, 100}[c.R.Intn(4)])
+					min := []int64{0, 1, 5, 100, 65533, 65535, 65536, 1<<31 - 2, 1 << 32, 1 << 62}[c.R.Intn(10)]
 					size := int64(c.R.Range(1, 64))
 					if c.R.Chance(1, 3) {
 						size = int64(c.R.Range(1, 8))
 					}
-					k := &core.Case{Oracle: "random", Target: "uePolicyContainer.IDGenerator", I: []int64{min, min + size - 1, int64(c.R.Uint64() >> 1), 1000}}
+					if min > 65536 {
+						c.Cover("range_position", "above 2^31")
+					} else if min+size-1 > 65535 {
+						c.Cover("range_position", "reaching above 65535")
+					}
+					k := &core.Case{Oracle: "random", Target: "uePolicyContainer.IDGenerator", I: []int64{min, min + size - 1, int64(c.R.Uint64() >> 1), 1000, int64(i % 2)}}
 					c.Do(k)
 					c.NonTrivial(k.Hash())
 					if i < 2 {
